@@ -112,11 +112,98 @@ def counts(h):
     """every row count the handle reports from metadata"""
     return {"count": int(h.count()), "len": len(h), "info_rows": int(h.info["rows"]), "info_rgs": int(h.info["row_groups"]),
             "per_rg": [int(rg.num_rows) for rg in h.row_groups]}
+
+def on_filelike(fastparquet, path, kind, steps, ref, index_values=True):
+    """COMPOSITION of reads on ONE handle h = ParquetFile(<one file-like object>): the caller opens the object
+    (kind 'file' = open(path, 'rb'), 'bytesio' = io.BytesIO of the file's bytes), runs the access steps
+    [(source over h, expected source over the reference reads in `ref`, compare-by-name)] in order and looks at its
+    own file object after every step.  -> list of differences; [] = every step returned the part of the reference
+    full read it stands for and the caller's file object was never closed behind the caller's back."""
+    if kind == "file":
+        f = open(path, "rb")
+    else:
+        with open(path, "rb") as g:
+            f = io.BytesIO(g.read())
+    out = []
+    try:
+        env = dict(globals())
+        env.update(ref)
+        env["h"] = fastparquet.ParquetFile(f)
+        for k, (got_src, exp_src, by_name) in enumerate(steps):
+            try:
+                exp = eval(exp_src, env)
+                got = eval(got_src, env)
+                if isinstance(exp, pd.DataFrame):
+                    msg = same(got, exp, by_name=by_name, index_values=index_values)
+                else:
+                    msg = None if got == exp else "%r != expected %r" % (got, exp)
+            except Exception as e:
+                msg = "%s: %s" % (type(e).__name__, str(e)[:120])
+            if msg is not None:
+                out.append("step %d %s: %s" % (k, got_src, msg))
+            if f.closed and not any("file object is closed" in m for m in out):
+                out.append("after step %d (%s) the caller's file object is closed" % (k, got_src))
+            if len(out) >= 3:
+                break
+    finally:
+        f.close()
+    return out
 '''
 
 _ns = {}
 exec(HELPERS_SRC, _ns)
 same, part, cat, counts = _ns["same"], _ns["part"], _ns["cat"], _ns["counts"]
+REF_SRC = "dict(full=full, full0=full0, offs=offs, counts0=counts0)"
+
+
+def filelike_chains(info):
+    """Compositions of reads on one file-object handle `h`: name -> [(got over h, expected over the reference reads,
+    compare by name)].  Every chain performs at least two reads (a single read of a file object is `filelike`)."""
+    nrg, rows, cols = info["nrg"], info["rows"], info["cols"]
+    allrg = list(range(nrg))
+    FULL = ("h.to_pandas()", "full", False)
+    ITER = ("cat(list(h.iter_row_groups()), full)", "part(full, offs, %r)" % (allrg,), False)
+    PIECES = ("[len(x) for x in h.iter_row_groups()]", "[n for n in %r if n]" % (info["rg_rows"],), False)
+    COUNTS = ("counts(h)", "counts0", False)
+
+    def pick(i):
+        return ("h[%d].to_pandas()" % i, "part(full, offs, [%d])" % (i % nrg), False)
+
+    def sl(s):
+        return ("h[%s].to_pandas()" % s, "part(full, offs, %r)" % (list(range(nrg)[eval(s)]),), False)
+
+    def head(n):
+        return ("h.head(%d)" % n, "full.iloc[:%d]" % n, False)
+
+    picks = [pick(i) for i in allrg] + ([pick(-1)] if nrg else [])
+    slices = [sl(s) for s in slices_for(nrg)[:7]]
+    heads = [head(n) for n in sorted({0, 1, 3, rows // 2, rows, rows + 1})]
+    c2 = [c for c in cols if c not in info["parts"]][:2]
+    colsteps = [("h.to_pandas(columns=%r)" % (c2,), "full[%r]" % (c2,), True),
+                ("cat(list(h.iter_row_groups(columns=%r)), full[%r])" % (c2, c2), "full[%r]" % (c2,), True),
+                ("h.head(5, columns=%r)" % (c2,), "full[%r].iloc[:5]" % (c2,), True)] if c2 else []
+    # iter_row_groups drops frames without columns (known finding of access 'iter'): not composed for such files
+    it = [ITER, PIECES] if cols else []
+    chains = {
+        "full,full": [FULL, FULL],
+        "full,iter": [FULL] + it + [FULL],
+        "iter,iter": it + it,
+        "full,picks": [FULL] + picks,
+        "picks": picks + picks[:1],
+        "full,slices": [FULL] + slices,
+        "slices,full": slices + [FULL],
+        "full,heads": [FULL] + heads,
+        "heads,full": heads + [FULL],
+        "columns": [FULL] + colsteps + [FULL],
+        "index=False": [FULL, ("h.to_pandas(index=False)", "full0", True), FULL],
+        "derived-handles": ([("h[::-1][0].to_pandas()", "part(full, offs, [%d])" % (nrg - 1), False), pick(0),
+                             ("cat(list(h[1:].iter_row_groups()), full)", "part(full, offs, %r)" % (allrg[1:],), False),
+                             ("h[1:].head(2)", "part(full, offs, %r).iloc[:2]" % (allrg[1:],), False)] if nrg >= 2 and cols
+                            else []),
+        "mixed": [FULL] + it[:1] + picks[-1:] + slices[2:4] + heads[2:3] + colsteps[:1] + [COUNTS, FULL] + it[:1] + heads[-1:],
+        "counts-between": [COUNTS, FULL, COUNTS] + picks[:1] + [COUNTS],
+    }
+    return {k: v for k, v in chains.items() if len(v) >= 2}
 
 
 # ---------------------------------------------------------------------------------------------
@@ -250,6 +337,14 @@ def programs(info, tier):
         if c2:
             add("filelike+columns", "2", "fastparquet.ParquetFile(open(path, 'rb')).to_pandas(columns=%r)" % (c2,), "full[%r]" % (c2,), True)
         add("filelike+pickle", "full", "pickle.loads(pickle.dumps(fastparquet.ParquetFile(path))).to_pandas()", "full")
+    # 10. compositions of reads on ONE handle opened from ONE file-like object (open file / BytesIO); the caller's
+    #     object must still be open after every step
+    if info["simple"]:
+        for kind in ("file", "bytesio"):
+            for name, steps in filelike_chains(info).items():
+                add("filelike-chain", "%s:%s" % (kind, name),
+                    "on_filelike(fastparquet, path, %r, %r, %s, iv_full)" % (kind, steps, REF_SRC), "[]",
+                    filelike=kind, steps=len(steps))
     if c2:
         add("copy+columns", "deepcopy", "copy.deepcopy(pf).to_pandas(columns=%r)" % (c2,), "full[%r]" % (c2,), True)
         add("index=False+columns", "2", "pf.to_pandas(index=False, columns=%r)" % (c2,),
@@ -305,6 +400,12 @@ def run_dataset(args):
     pf, full, info = dataset_info(fp, ds)
     alias_ok = {k: D.index_alias_ok(fp, k) for k in ("i", "f", "b", "O", "M", "category")}
     env = dict(_ns)
+    iv_full = True
+    if not isinstance(full.index, (pd.RangeIndex, pd.MultiIndex)):
+        k = full.index.dtype
+        kind = "category" if isinstance(k, pd.CategoricalDtype) else ("M" if k.kind == "M" else k.kind)
+        iv_full = alias_ok.get({"u": "i"}.get(kind, kind), True)
+    env["iv_full"] = iv_full
     env.update({"pf": pf, "full": full, "full0": pf.to_pandas(index=False), "offs": info["offs"], "rg_rows": info["rg_rows"], "path": ds.path,
                 "fastparquet": fp, "counts0": counts(pf)})
     res = []
@@ -331,6 +432,8 @@ def run_dataset(args):
                 what = "%r != expected %r" % (got, exp)
         except Exception as e:
             what = "%s: %s" % (type(e).__name__, str(e)[:200])
+        if feats["access"] == "filelike-chain":
+            iv = iv_full
         feats["index_values_compared"] = bool(iv)
         res.append((G, feats, what is None, what, info["rows"] > 0, (ds.name, got_src, exp_src, by_name, iv)))
     return res
@@ -358,6 +461,7 @@ offs = [0]
 for _n in rg_rows:
     offs.append(offs[-1] + _n)
 counts0 = counts(pf)
+iv_full = %r
 exp = %s
 got = %s
 if isinstance(exp, pd.DataFrame):
@@ -366,7 +470,7 @@ else:
     msg = None if got == exp else "%%r != expected %%r" %% (got, exp)
 print("difference:", msg)
 VIOLATED = msg is not None
-''' % (exp_src, got_src, by_name, iv)
+''' % (iv, exp_src, got_src, by_name, iv)
     return D.make_snippet(dsname, body)
 
 
@@ -399,7 +503,11 @@ def run_bounded(ctx):
         "BytesIO vs path; pickle / copy / deepcopy; reported counts (count, len, info, per row group) of the handle "
         "and of slices, parent unchanged after slicing; compositions: slice+columns, slice+pickle, pickle+slice, "
         "slice+iter, slice+index=False, slice+head, slice+slice, slice+pick, filelike+slice/head/columns/pickle, "
-        "copy+columns, index=False+columns, columns+head. MultiIndex (index=[a,b]) is not run (segfault under pandas "
+        "copy+columns, index=False+columns, columns+head; filelike-chain: for every single-file dataset x {open file, "
+        "BytesIO}: up to 14 COMPOSITIONS of >= 2 reads on ONE handle built on ONE file-like object (full then full / "
+        "iter / every pick / slices / heads / column subsets / index=False / counts, the same in the opposite order, "
+        "iter twice, picks only, handles derived from the handle, a mixed chain of 10 reads), each step equal to its "
+        "part of the path-based full read and the caller's file object still open after every step. MultiIndex (index=[a,b]) is not run (segfault under pandas "
         "3). distinct = (dataset, access kind, detail); nontrivial = dataset has rows." % (DATASETS, FOREIGN)))
     ctx.bounded_group(G_IDX, rule="dataframe.empty: for each index dtype kind {int, float, bool, object, datetime, category} a value "
                                   "written through the returned index view must show in the frame's index (6 cases)")
